@@ -563,11 +563,13 @@ func ruleC04Orchestrator(w *World, r *Report) {
 	const P = "C04"
 	mod := w.Fn(P, "pfcpiface.(*UP4).modifyUP4ForwardingConfiguration")
 	mn := w.FuncName(mod)
-	// a batch is taken as applied only when every update is OK or (for a shared entry) ALREADY_EXISTS;
-	// tolerating NOT_FOUND accepts MODIFY/DELETE of entries the switch does not have
+	// a batch is taken as applied only when every update is OK or — for the sessions entry that the PDRs of
+	// one direction share — ALREADY_EXISTS on the way in and NOT_FOUND on the way out; NOT_FOUND on INSERT or
+	// MODIFY, and every other code, is a failed write
 	allInstrs(mod, func(i ssa.Instruction) {
 		if c, ok := i.(*ssa.Call); ok && staticCallee(c) != nil && staticCallee(c).Name() == "ApplyTableEntries" {
-			statusFilterRule(w, r, "R04.2", mod, c)
+			statusFilterRule(w, r, "R04.2", "reject", mod, c)
+			statusFilterRule(w, r, "R04.2", "gone", mod, c)
 		}
 	})
 	bt := w.Fn(P, "pfcpiface.(*P4rtTranslator).BuildTerminationsTableEntry")
